@@ -954,8 +954,7 @@ class MasterSchemaRow:
 
                 # See if the character is a single space or an opening parenthesis, or comment indicator
                 if (
-                    character == "\n"
-                    or character == " "
+                    character.isspace()
                     or character == "("
                     or character == "-"
                     or character == "/"
